@@ -36,6 +36,12 @@ func ProjectValue(v any) any {
 	case *big.Int:
 		return J{"k": "num-big", "text": v.String()}
 	case *big.Rat:
+		if v.Num().IsInt64() && v.Denom().IsInt64() {
+			n, d := v.Num().Int64(), v.Denom().Int64()
+			if n >= -maxInt && n <= maxInt && d >= 2 && d <= maxInt {
+				return J{"k": "rat", "n": n, "d": d}
+			}
+		}
 		return J{"k": "num-rat", "text": v.String()}
 	case float64:
 		return J{"k": "num-float", "text": vals.ToString(v)}
